@@ -251,7 +251,8 @@ impl LineSymbolMap {
         // Check not overlapping:
         let not_overlapping = bl.windows(2).all(|win| {
             let [(ls, lb), (rs, _)] = win else { unreachable!() };
-            ls + lb.len() <= *rs
+            // line numbers read from an object file can be arbitrarily large
+            ls.checked_add(lb.len()).is_some_and(|le| le <= *rs)
         });
 
         match not_overlapping {
@@ -443,7 +444,7 @@ struct SymbolData {
 impl SymbolData {
     /// Calculates the source range of this symbol, given the name of the label.
     fn span(&self, label: &str) -> Range<usize> {
-        self.src_start .. (self.src_start + label.len())
+        self.src_start .. self.src_start.saturating_add(label.len())
     }
 }
 
@@ -475,7 +476,7 @@ impl DebugSymbols {
         // B doesn't overlap with A because ObjectFile check
         a.line_map.0.extend({
             b.line_map.0.into_iter()
-                .map(|(k, v)| (k + lines, v))
+                .map(|(k, v)| (k.saturating_add(lines), v))
         });
 
         a.src_info = SourceInfo::from_string(a.src_info.src + "\n" + &b.src_info.src);
